@@ -26,6 +26,7 @@ func runC11(c *Ctx) {
 	ruleFlushBeforeRead(c, "R11.d")
 	ruleCloseOnEveryExit(c, "R11.e")
 	ruleRegistryBracket(c, "R11.e")
+	ruleNoRetryAfterParseError(c, "R11.f")
 	c.assume("requests are arrays of bulk strings (the property's quantifier): a partial line-type element at end of stream is outside it")
 }
 
